@@ -44,6 +44,7 @@ type seenReq struct {
 	Target string
 	Header [][2]string
 	Token  string
+	Body   string
 	At     time.Time
 }
 
@@ -76,7 +77,7 @@ func newUpstreams(n int, reply func(n int, r *seenReq) upAction) *upstreams {
 				if err != nil {
 					return
 				}
-				r := &seenReq{Host: i, Method: m.Method, Target: m.Target, Header: m.Header, At: time.Now()}
+				r := &seenReq{Host: i, Method: m.Method, Target: m.Target, Header: m.Header, Body: string(m.Body), At: time.Now()}
 				r.Token, _ = m.Get(mesh.TokenHeader)
 				u.mu.Lock()
 				n := len(u.log)
@@ -141,12 +142,17 @@ type h1Result struct {
 
 // do1 sends one HTTP/1.1 request on a fresh connection and reads the response.
 func do1(addr, method, target, host string, header [][2]string, deadline time.Duration) h1Result {
+	return do1Body(addr, method, target, host, header, nil, deadline)
+}
+
+// do1Body is do1 with a request body (Content-Length framing).
+func do1Body(addr, method, target, host string, header [][2]string, body []byte, deadline time.Duration) h1Result {
 	c, err := net.DialTimeout("tcp", addr, 3*time.Second)
 	if err != nil {
 		return h1Result{Err: err}
 	}
 	defer mesh.Abort(c)
-	raw := mesh.BuildH1Request(method, target, append([][2]string{{"Host", host}}, header...), nil, nil, false)
+	raw := mesh.BuildH1Request(method, target, append([][2]string{{"Host", host}}, header...), body, nil, body != nil)
 	t0 := time.Now()
 	_ = c.SetDeadline(time.Now().Add(deadline))
 	if _, err := c.Write(raw); err != nil {
@@ -634,7 +640,9 @@ func timeoutCase(rt *rapid.T) {
 			o.Timeout = routeTo
 		}
 		if proto == "Http1" {
-			ups := newUpstreams(1, func(n int, r *seenReq) upAction { return upAction{Kind: "reply", Delay: 2600 * time.Millisecond, Body: "late"} })
+			ups := newUpstreams(1, func(n int, r *seenReq) upAction {
+				return upAction{Kind: "reply", Delay: 2600 * time.Millisecond, Body: "late"}
+			})
 			defer ups.Close()
 			o.Hosts = ups.addrs()
 			cs, err := mesh.NewCaseBound(o)
@@ -823,7 +831,14 @@ func retryCase(rt *rapid.T) {
 		rt.Skip("rig: " + err.Error())
 	}
 	defer cs.Close()
-	res := do1(cs.Addr, "GET", "/retry", "h.example", [][2]string{{mesh.TokenHeader, "tok"}}, waitDeadline)
+	// a request with a body has to be sent again completely by every retry
+	method, body := "GET", []byte(nil)
+	if rapid.Bool().Draw(rt, "withBody") {
+		method, body = "POST", []byte(strings.Repeat("retry-body;", rapid.SampledFrom([]int{1, 40, 1000}).Draw(rt, "bodyRepeat")))
+		desc += fmt.Sprintf(", POST with %d body bytes", len(body))
+		ev.Class(partE2E, "retry:request-with-body")
+	}
+	res := do1Body(cs.Addr, method, "/retry", "h.example", [][2]string{{mesh.TokenHeader, "tok"}}, body, waitDeadline)
 	if res.Err != nil {
 		fail(rt, "retry/no-response", "%s: %v", desc, res.Err)
 	}
@@ -837,6 +852,11 @@ func retryCase(rt *rapid.T) {
 	desc += fmt.Sprintf(" -> client status %d, %d attempt(s) on hosts %v", res.Status, got, hosts)
 	if got == 0 {
 		fail(rt, "retry/not-forwarded", "%s", desc)
+	}
+	for i, r := range lg {
+		if r.Method != method || r.Body != string(body) {
+			fail(rt, "retry/attempt-differs-from-request", "%s: attempt %d reached the upstream as %s with %d body bytes, the request is %s with %d", desc, i+1, r.Method, len(r.Body), method, len(body))
+		}
 	}
 	// a retry only under a configured condition: nothing may follow a final outcome
 	if got > firstFinal+1 {
@@ -921,7 +941,6 @@ func retryConnectCase(rt *rapid.T) {
 var _ = sort.Strings
 var _ = atomic.AddInt32
 
-
 // retryGlobalTimeoutCase: the route's global timeout bounds the whole request also when attempts are retried.
 // Every host stalls, each attempt ends by its per-try timeout and is retried; the budget is large enough
 // that the attempts alone would take at least global + 250 ms. The client must be answered by the global
@@ -934,7 +953,9 @@ func retryGlobalTimeoutCase(rt *rapid.T) {
 	desc := fmt.Sprintf("Http1: route timeout %v, retry_on num_retries=%d retry_timeout=%v, %d stalled host(s)", global, retries, perTry, nHosts)
 	ev.Case(partE2E, true, []byte("retry-global-timeout|"+desc), func() interface{} { return desc }, "kind:retry-global-timeout")
 	measure := func() (ok bool, el time.Duration, detail string) {
-		ups := newUpstreams(nHosts, func(n int, r *seenReq) upAction { return upAction{Kind: "reply", Delay: 2600 * time.Millisecond, Body: "late"} })
+		ups := newUpstreams(nHosts, func(n int, r *seenReq) upAction {
+			return upAction{Kind: "reply", Delay: 2600 * time.Millisecond, Body: "late"}
+		})
 		defer ups.Close()
 		o := mesh.Opts{Down: "Http1", Up: "Http1", Timeout: global, Hosts: ups.addrs(),
 			Retry: &v2.RetryPolicy{RetryPolicyConfig: v2.RetryPolicyConfig{RetryOn: true, NumRetries: retries}, RetryTimeout: perTry}}
